@@ -218,7 +218,7 @@ def run(case: dict, ctx) -> dict:
     far = k == "far"
     align = rng.choice([4096, 4096, 512, 0, 1 << 16])
     built, expected, offs = w.build(rng, members, data_order=rng.choice(["seq", "rev", "shuffle", "shuffle"]), align=align,
-                                    trailing=rng.choice([0, 0, 512, 10240, 4096 * 3]), far=far)
+                                    trailing=rng.choice([0, 0, 512, 10240, 4096 * 3]), far=far, magic_tail=rng.choice([b"\0", b"\0", b" ", b"0"]))
     gz = False
     if far:
         fobj = as_handle(built)
@@ -266,6 +266,33 @@ def run(case: dict, ctx) -> dict:
         elif kind == "sym" and m.linkname != want:
             res["viol"].append({"what": "symlink target differs", "mech": MECH, "detail": {"member": name[:60]}})
             break
+    safe = [(n_, w_) for (n_, kd_, sz_, _m), (_a, _b, _c, w_) in zip(got, expected)
+            if kd_ == "file" and sz_ > 0 and not n_.startswith("/") and ".." not in n_.split("/") and "\\" not in n_ and "\0" not in n_ and len(n_) < 200]
+    if not far and safe and not res["viol"] and case["i"] % 3 == 0:
+        # extraction to disk while the medium fails: extract() either raises or leaves the stored bytes - it does not return
+        # normally with a file that holds something else
+        import os as _os
+
+        from vf import core as _core
+
+        name_, want_ = rng.choice(safe)
+        fh2 = as_handle(raw)
+        t2 = call(lambda: vmtar.open(fileobj=fh2))
+        if t2.ok:
+            dest = ctx.tmpdir()
+            _core.arm_fault(rng.randrange(1, 5), "eio")
+            try:
+                ex = call(lambda: t2.value.extract(name_, path=dest, filter="fully_trusted"))
+            finally:
+                fired = _core.FAULT["countdown"] is None
+                _core.arm_fault(None)
+            cnt["extractions_under_io_errors"] = cnt.get("extractions_under_io_errors", 0) + int(fired)
+            if ex.ok:
+                p_out = _os.path.join(dest, name_)
+                on_disk = open(p_out, "rb").read() if _os.path.isfile(p_out) else None
+                if on_disk is not None and on_disk != want_ and [n2 for n2, _w in safe].count(name_) == 1:
+                    res["viol"].append({"what": "extract() returned normally although the medium failed, and left other bytes than the stored ones on disk",
+                                        "mech": MECH, "detail": {"member": name_[:60], "stored_len": len(want_), "on_disk_len": len(on_disk), "fault_fired": fired}})
     if far and hasattr(fobj, "mutations") and fobj.mutations:
         res["viol"].append({"what": "handle mutated", "mech": "c09.handle", "detail": {}})
     kinds = [m["kind"] for m in members]
